@@ -14,9 +14,25 @@ def run(ctx, b, broken):
     ctx.notes["rule"] = "generated programs x layouts (single line, one token per line, random indentation with linemarkers between arbitrary tokens) and expression statements x random redundant parentheses; ASTs compared with coordinates erased, generated text compared; non-trivial = >= 2 variants that differ in line structure; distinct by text"
     n = 400 if ctx.tier == "quick" else 5000
     gen = c_generator.CGenerator()
-    for g, toks, exp in gen_cases(ctx, n):
+    # directed programs: tags and typedef names shadowed in inner scopes, unnamed bit-fields of typedef type, labels, ?: next to
+    # names - constructs whose treatment could depend on what touches what, or on two constructs sharing a coordinate
+    DIRECTED = [
+        "struct s { int x ; } a ; void f ( void ) { struct s { char c ; } b ; b . c = 1 ; }",
+        "union u { int x ; } a ; void f ( void ) { union u { char c ; float d ; } b ; { union u { long l ; } c ; c . l = 1 ; } b . c = 1 ; }",
+        "enum e { A , B } x ; void f ( void ) { enum e { C = 2 , D } y ; y = C ; }",
+        "struct s { int x ; } ; struct t { struct s { int y ; } m ; } ; struct s v ;",
+        "typedef int T ; struct q { T : 3 ; int y ; T z : 2 ; const T : 0 ; } ;",
+        "typedef int T ; void g ( int c ) { L : ; c = c ? ( T ) 1 : c ; goto L ; }",
+        "typedef int T ; void g ( int c ) { switch ( c ) { case ( T ) 1 : c ++ ; default : ; } }",
+        "typedef int T ; void g ( void ) { int T ; T : T = 1 ; goto T ; }",
+        "typedef char T ; int f ( int a , int b ) { return a ? b : sizeof ( T ) ; }",
+        "typedef int T ; T a , * b , c [ 2 ] ; T f ( T x , T * y ) ; struct w { T m ; T * n ; } ;",
+        "int a ; int a ; void f ( void ) ; void f ( void ) ; struct s ; struct s ; struct s { int k ; } ; struct s z ;",
+    ]
+    cases = [(None, [(w, None, "lit" if w[0] in "\"'" else ("num" if w[0].isdigit() else ("id" if (w[0].isalpha() or w[0] == "_") else "punct"))) for w in d.split()], None) for d in DIRECTED]
+    for g, toks, exp in cases + list(gen_cases(ctx, n)):
         ref = None
-        for mode in ("single", "lines", "random", "random"):
+        for mode in ("single", "lines", "random", "random", "glued", "samecoord"):
             text, pos = cgen.layout(toks, ctx.rng, mode)
             ctx.evaluations += 1
             ctx.count("layout:" + mode)
